@@ -1482,6 +1482,11 @@ class EvolveAppTask(BaseEvolutionTask):
                     else:
                         imports.add(import_str)
 
+        if any('models.' in line for line in mutation_lines):
+            # Values such as models.Q(...), models.CheckConstraint or a
+            # field type in a ChangeField/ChangeMeta refer to this module.
+            imports.add('from django.db import models')
+
         imports.add('from django_evolution.mutations import %s'
                     % ', '.join(sorted(mutation_types)))
 
